@@ -402,6 +402,19 @@ def check(ctx):
         run.floor('C05.siblings', 4)
 
     # ---- C05.fields / C05.order ----------------------------------------------------------------------------------------------
+    # semantic first: the parse functions interpreted on generated well-formed elements (E7); the shape rules below decide only
+    # when something in them cannot be interpreted
+    sem_fields = _fields_by_interpretation(ctx)
+    if sem_fields is not None:
+        res_, st_ = sem_fields
+        run.stats['fields_decided_by'] = (f'interpretation of {st_["parse_functions"]} parse functions on {st_["elements_interpreted"]} generated '
+                                          f'well-formed elements (E7)')
+        for rule_, cname_, fld_, ok_, text_ in res_:
+            run.add(rule_, jmod.name, st_['parser_of'][cname_], f'{cname_}.{fld_}', ok_, text_)
+            if rule_ == 'C05.fields' and FIELD_KIND[cname_].get(fld_) in ('str', 'str?', 'int', 'raw', 'strlist'):
+                run.add('C05.verbatim', jmod.name, st_['parser_of'][cname_], f'{cname_}.{fld_}', ok_,
+                        f'{cname_}.{fld_} is the value of the document, unchanged (strings with blanks, case, separators; 0 and negative numbers; '
+                        f'lists with None / numbers / nested values)' if ok_ else text_)
     n_ctor = 0
     for cname, schema in sorted(SCHEMA.items()):
         cls = amod.classes.get(cname)
@@ -419,12 +432,14 @@ def check(ctx):
                 if isinstance(c, ast.Call) and prog.resolve_expr_symbol(f.module, c.func) is cls:
                     sites.append((f, c))
         if not sites:
-            run.violation('C05.fields', jmod.name, '-', f'{cname} construction', f'no parse function constructs ast.{cname}')
+            if sem_fields is None:
+                run.violation('C05.fields', jmod.name, '-', f'{cname} construction', f'no parse function constructs ast.{cname}')
             continue
         for f, c in sites:
             n_ctor += 1
-            _field_rule(ctx, f, c, cls, fields, schema)
-    if n_ctor < 29:
+            if sem_fields is None:
+                _field_rule(ctx, f, c, cls, fields, schema)
+    if n_ctor < 29 and sem_fields is None:
         run.error('C05.fields', jmod.name, '-', 'constructor sites', f'only {n_ctor} ast constructions found (29 confirmed)')
     # the typed getters themselves: a well-typed value under the key - a falsy one included - is handed back unchanged
     from .shared import getters_by_interpretation
@@ -440,7 +455,18 @@ def check(ctx):
         run.stats['getters_decided_by'] = f'interpretation of the ElementHelper getters on {n_eval} elements (E7)'
     run.floor('C05.fields', 60)
     run.floor('C05.order', 9)
-    _verbatim_rule(ctx, jmod, amod)
+    if sem_fields is None:
+        _verbatim_rule(ctx, jmod, amod)
+    # ---- C05.memo: what the parser remembers is keyed by everything it depends on (a namespace node by its parent too) ----------------
+    from .shared import memo_tables
+    memo_fns = [f for f in prog.all_functions() if f.module.name in (jmod.name, 'dznpy.scoping')]
+    for mf, node_, ok_, msg_ in memo_tables(ctx, memo_fns):
+        run.add('C05.memo', mf.module.name, mf.qualname, node_, ok_, msg_, node=node_)
+    for fq_, line_, table_ in getattr(prog, 'memo_eliminated', []):
+        mf = prog.functions.get(fq_)
+        if mf is not None and any(mf is f for f in memo_fns):
+            run.holds('C05.memo', mf.module.name, mf.qualname, f'memo table {table_}',
+                      f'memo table `{table_}` is keyed by every parameter the remembered value depends on (N22)')
 
     # ---- C05.enums ----------------------------------------------------------------------------------------------------------------
     for fname, enum_name in (('parse_event_direction', 'EventDirection'), ('parse_formal_direction', 'FormalDirection'),
@@ -1160,6 +1186,316 @@ def _traversal_by_interpretation(ctx):
     except Undecided as exc:
         run.remark(f'C05: the traversal could not be interpreted on the scenario document ({exc}); the shape rules decide')
         return None
+
+
+# ---- C05.fields / C05.order / C05.verbatim by interpretation (E7) --------------------------------------------------------------------------
+# what kind of value each field of an ast class holds (Dezyne's JSON format, next to SCHEMA which names the keys):
+#   'str' / 'int' a JSON string / number kept as it is ('str?' may be absent -> None);  'ids' the identifier list of a scope_name;
+#   a class name: the nested element of that class;  [class name]: the list under the key, element-wise, in order;
+#   'raw' the list under the key, untouched;  'strlist' a list of strings, untouched;  'dir:<Enum>' a direction keyword;
+#   'injected' the optional "injected?" marker;  'types' the enums / subints declared in an interface
+FIELD_KIND: Dict[str, Dict[str, Any]] = {
+    'Binding': {'left': 'EndPoint', 'right': 'EndPoint'},
+    'Bindings': {'elements': ['Binding']},
+    'Comment': {'value': 'str'},
+    'Component': {'name': 'ScopeName', 'ports': 'Ports'},
+    'Data': {'value': 'str'},
+    'EndPoint': {'port_name': 'str', 'instance_name': 'str?'},
+    'Enum': {'name': 'ScopeName', 'fields': 'Fields'},
+    'Extern': {'name': 'ScopeName', 'value': 'Data'},
+    'Event': {'name': 'str', 'signature': 'Signature', 'direction': 'dir:EventDirection'},
+    'Events': {'elements': ['Event']},
+    'Fields': {'elements': 'strlist'},
+    'Filename': {'name': 'str'},
+    'Foreign': {'name': 'ScopeName', 'ports': 'Ports'},
+    'Formal': {'name': 'str', 'type_name': 'ScopeName', 'direction': 'dir:FormalDirection'},
+    'Formals': {'elements': ['Formal']},
+    'Import': {'name': 'str'},
+    'Instance': {'name': 'str', 'type_name': 'ScopeName'},
+    'Instances': {'elements': ['Instance']},
+    'Interface': {'name': 'ScopeName', 'types': 'types', 'events': 'Events'},
+    'Namespace': {'scope_name': 'ScopeName', 'elements': 'raw'},
+    'Port': {'name': 'str', 'type_name': 'ScopeName', 'direction': 'dir:PortDirection', 'formals': 'Formals', 'injected': 'injected'},
+    'Ports': {'elements': ['Port']},
+    'Range': {'from_int': 'int', 'to_int': 'int'},
+    'Root': {'comment': 'Comment?', 'elements': 'raw', 'working_dir': 'str'},
+    'ScopeName': {'value': 'ids'},
+    'Signature': {'type_name': 'ScopeName', 'formals': 'Formals'},
+    'SubInt': {'name': 'ScopeName', 'range': 'Range'},
+    'System': {'name': 'ScopeName', 'ports': 'Ports', 'instances': 'Instances', 'bindings': 'Bindings'},
+    'Types': {'elements': 'types'},
+}
+DIRECTION_WORDS = {'EventDirection': {'in': 'IN', 'out': 'OUT'},
+                   'FormalDirection': {'in': 'IN', 'out': 'OUT', 'inout': 'INOUT'},
+                   'PortDirection': {'requires': 'REQUIRES', 'provides': 'PROVIDES'}}
+_STRINGS = [' Mixed Case_1 ', '', 'x', 'UPPER', 'tab\tinside', 'dotted.name', '  lead', 'trail  ', '0', 'ünï']
+_INTS = [0, -3, 7, 2147483648, 1, -1]
+_IDS = [['Id_1'], ['_x9', 'B'], ['A', 'b', 'C_3'], ['lower'], ['Zz', 'Zz']]
+
+
+def _fields_by_interpretation(ctx):
+    """Every parse function by contract (asserts the <class> tag of ast class X, is annotated to return X) interpreted (E7) on
+    well-formed elements generated from the format tables - nested lists of 0, 2 and 3 elements, every direction keyword,
+    optional keys present and absent, strings that any normalisation (strip, case, split) would change, 0 and negative
+    numbers, under the root namespace and under a nested one - and the object handed back compared field by field with
+    what the element says.  Returns None when something cannot be interpreted (the shape rules decide then), else
+    (results, statistics): results = [(rule, class, field, ok, text)]."""
+    from ..scenario import Interp, Raised, Undecided, Obj, EnumV
+    prog = ctx.prog
+    jmod, amod = prog.module('json_ast'), prog.module('ast')
+    ns_tree, ns_ids = prog.cls('scoping', 'NamespaceTree'), prog.cls('scoping', 'NamespaceIds')
+    if ns_tree is None or ns_ids is None:
+        return None
+    parsers: Dict[str, FuncInfo] = {}
+    for f in jmod.functions.values():
+        if f.node.returns is None or not f.params():
+            continue
+        rt = prog.ann_to_type(f.module, f.node.returns, None)
+        rc = prog.classes.get(rt[1]) if rt[0] == 'cls' else None
+        if rc is None or rc.module is not amod or rc.name not in CLASS_TAG:
+            continue
+        if _assert_class_literal(f) != CLASS_TAG[rc.name]:
+            continue
+        if rc.name in parsers:
+            return None
+        parsers[rc.name] = f
+    if set(parsers) != set(SCHEMA):
+        return None
+    for ename, words in DIRECTION_WORDS.items():
+        ec = amod.classes.get(ename)
+        if ec is None or not ec.is_enum or set(words.values()) != set(ec.enum_members):
+            return None
+    it = Interp(prog)
+    it.MAX_STEPS = 6000000
+    counter = [0]
+
+    def nxt(pool):
+        counter[0] += 1
+        return pool[counter[0] % len(pool)]
+
+    def uniq_str():
+        counter[0] += 1
+        s = _STRINGS[counter[0] % len(_STRINGS)]
+        return f'{s}#{counter[0]}' if counter[0] % 7 else s          # (now and then a plain, repeated one: '' among them)
+
+    def gen(cname: str, ns: Optional[Tuple[Any, List[str]]], size: int, opts: Optional[dict] = None):
+        """-> (element, expected)   ns = (NamespaceTree object, its path) for declarations"""
+        opts = opts or {}
+        el: Dict[str, Any] = {'<class>': CLASS_TAG[cname]}
+        exp: Dict[str, Any] = {}
+        own_ids = None
+        kinds = FIELD_KIND[cname]
+        # the name first: scoped fields depend on it
+        order = sorted(SCHEMA[cname], key=lambda f_: (SCHEMA[cname][f_].startswith('@'), f_ != 'name', not str(kinds.get(f_)).startswith('dir:')))
+        for fld in order:
+            key = SCHEMA[cname][fld]
+            if key == '@parent_ns':
+                exp[fld] = ('is', ns[0]) if ns[0] is not None else ('tree', list(ns[1]))
+                continue
+            if key == '@fqn':
+                exp[fld] = ('ids', list(ns[1]) + list(own_ids))
+                continue
+            if key == '@ns_trail':
+                exp[fld] = ('tree', list(ns[1]) + list(own_ids))
+                continue
+            kind = kinds[fld]
+            if kind == 'str':
+                v = opts.get(fld, uniq_str())
+                el[key] = v
+                exp[fld] = ('val', v)
+            elif kind == 'str?':
+                if opts.get('idx', size) % 2 == 0:
+                    v = uniq_str()
+                    el[key] = v
+                    exp[fld] = ('val', v)
+                else:
+                    exp[fld] = ('val', None)
+            elif kind == 'int':
+                v = nxt(_INTS)
+                el[key] = v
+                exp[fld] = ('val', v)
+            elif kind == 'ids':
+                v = list(opts.get('ids') or nxt(_IDS))
+                el[key] = v
+                exp[fld] = ('ids', v)
+            elif kind == 'raw':
+                v = [{'<class>': 'anything', 'n': counter[0]}, 17, None, 'text', ['x']][:size + 2]
+                el[key] = v
+                exp[fld] = ('same', v)
+            elif kind == 'strlist':
+                v = [uniq_str() for _ in range(size)]
+                el[key] = v
+                exp[fld] = ('same', v)
+            elif isinstance(kind, str) and kind.startswith('dir:'):
+                words = DIRECTION_WORDS[kind[4:]]
+                allowed = opts.get('directions') or sorted(words)
+                w = opts.get('direction') or allowed[opts.get('idx', size) % len(allowed)]
+                el[key] = w
+                exp[fld] = ('enum', kind[4:], words[w])
+            elif kind == 'injected':
+                if opts.get('idx', size + 1) % 2:
+                    el[key] = 'injected'
+                exp[fld] = ('obj', 'Injected', {'value': ('val', key in el)})
+            elif kind == 'Comment?':
+                if size:
+                    el[key], e_ = gen('Comment', None, size)
+                    exp[fld] = e_
+                else:
+                    exp[fld] = ('val', None)
+            elif kind == 'types':
+                if cname == 'Types':
+                    sub_ns = opts['types_ns']
+                    items, exps = [], []
+                    for k in range(size):
+                        ce, ee = gen('Enum' if (k + size) % 2 else 'SubInt', sub_ns, 2, {'idx': k})
+                        items.append(ce)
+                        exps.append(ee)
+                    el[key] = items
+                    exp[fld] = ('list', exps)
+                else:
+                    # the interface's own scope: parent path + its name; the node is made by the parser (compared by its path)
+                    el[key], e_ = gen('Types', None, size, {'types_ns': (None, list(ns[1]) + list(own_ids))})
+                    exp[fld] = e_
+            elif isinstance(kind, list):
+                sub_opts = {}
+                if opts.get('formal_directions') and kind[0] == 'Formal':
+                    sub_opts = {'directions': opts['formal_directions']}
+                items, exps = [], []
+                for k in range(size):
+                    ce, ee = gen(kind[0], None, 2 + k % 2, dict(sub_opts, idx=k))
+                    items.append(ce)
+                    exps.append(ee)
+                el[key] = items
+                exp[fld] = ('list', exps)
+            else:
+                sub_opts = {}
+                if cname == 'Event' and fld == 'signature' and el.get('direction') == 'out':
+                    sub_opts = {'void': True, 'formal_directions': ['in', 'inout']}
+                if cname == 'Signature' and fld == 'type_name' and opts.get('void'):
+                    sub_opts = {'ids': ['void']}
+                if cname == 'Signature' and fld == 'formals' and opts.get('formal_directions'):
+                    sub_opts = {'formal_directions': opts['formal_directions']}
+                el[key], e_ = gen(kind, None, size, sub_opts)
+                exp[fld] = e_
+                if fld == 'name' and kind == 'ScopeName':
+                    own_ids = el[key]['ids']
+        return el, ('obj', cname, exp)
+
+    def ids_of(v) -> Optional[list]:
+        if isinstance(v, Obj) and v.cls is ns_ids and isinstance(v.fields.get('items'), list):
+            return list(v.fields['items'])
+        return None
+
+    def match(exp, got, where: str, out: list):
+        k = exp[0]
+        if k == 'obj':
+            if not (isinstance(got, Obj) and got.cls.name == exp[1]):
+                out.append((where, 'fields', f'holds {got!r:.60} where a {exp[1]} is declared'))
+                return
+            for fld, sub in exp[2].items():
+                if fld not in got.fields:
+                    out.append((f'{where}.{fld}' if where else fld, 'fields', 'is not set'))
+                    continue
+                match(sub, got.fields[fld], f'{where}.{fld}' if where else fld, out)
+        elif k == 'val' or k == 'same':
+            v = exp[1]
+            same = (got is v) if (k == 'same' and False) else (type(got) is type(v) and got == v)
+            if not same:
+                out.append((where, 'order' if isinstance(v, list) and isinstance(got, list) and sorted(map(repr, v)) == sorted(map(repr, got)) else 'fields',
+                            f'holds {got!r:.60} where the element says {v!r:.60}'))
+        elif k == 'ids':
+            g = ids_of(got)
+            if g != exp[1]:
+                out.append((where, 'fields', f'is {".".join(g) if g is not None else repr(got)[:50]} where the element says {".".join(exp[1])}'))
+        elif k == 'enum':
+            if not (isinstance(got, EnumV) and got.cls.name == exp[1] and got.member == exp[2]):
+                out.append((where, 'fields', f'is {got!r:.40} where the element says {exp[1]}.{exp[2]}'))
+        elif k == 'is':
+            if got is not exp[1]:
+                out.append((where, 'fields', 'is not the namespace the declaration was parsed in'))
+        elif k == 'tree':
+            if not (isinstance(got, Obj) and got.cls is ns_tree):
+                out.append((where, 'fields', f'holds {got!r:.50} where the scope of the declaration is expected'))
+                return
+            g = ids_of(it.getattr(got, 'fqn', parsers['Interface'], 0))
+            if g != exp[1]:
+                out.append((where, 'fields', f'is the scope {".".join(g or ["?"])} where the declaration opens {".".join(exp[1])}'))
+        elif k == 'list':
+            if not isinstance(got, list):
+                out.append((where, 'fields', f'holds {got!r:.50} where a list is declared'))
+                return
+            if len(got) != len(exp[1]):
+                out.append((where, 'order', f'has {len(got)} entries for {len(exp[1])} elements of the list'))
+                return
+            # element-wise; when that fails but some permutation fits, it is the order
+            errs_at = []
+            for i, (e_, g_) in enumerate(zip(exp[1], got)):
+                sub: list = []
+                match(e_, g_, f'{where}[{i}]', sub)
+                errs_at.append(sub)
+            if any(errs_at):
+                def fits(e_, g_):
+                    s_: list = []
+                    match(e_, g_, '', s_)
+                    return not s_
+                if all(any(fits(e_, g_) for g_ in got) for e_ in exp[1]) and len(exp[1]) > 1:
+                    out.append((where, 'order', 'holds the elements of the list in another order'))
+                else:
+                    for sub in errs_at:
+                        out.extend(sub)
+
+    root_ns = it.construct(ns_tree, [], {})
+    nested = it.construct(ns_tree, [], {'parent': it.construct(ns_tree, [], {'parent': root_ns, 'scope_name': it.construct(ns_ids, [['Outer']], {})}),
+                                         'scope_name': it.construct(ns_ids, [['In', 'Ner']], {})})
+    spaces = [(root_ns, []), (nested, ['Outer', 'In', 'Ner'])]
+    findings: Dict[Tuple[str, str, str], str] = {}
+    n_el = 0
+    try:
+        for cname, f in sorted(parsers.items()):
+            scoped = any(v.startswith('@') for v in SCHEMA[cname].values())
+            n_params = len(f.params())
+            if scoped != (n_params > 1) and cname != 'Types':
+                raise Undecided(f'{f.name}: parameters do not match the scope needs of {cname}')
+            for ns in (spaces if scoped or cname == 'Types' else [None]):
+                for size in (2, 0, 3):
+                    variants = [{}]
+                    if cname == 'Event':
+                        variants = [{'direction': 'in'}, {'direction': 'out'}]
+                    elif cname in ('Formal', 'Port'):
+                        variants = [{'direction': w} for w in sorted(DIRECTION_WORDS[FIELD_KIND[cname]['direction'][4:]])]
+                    for opts in variants:
+                        if cname == 'Types':
+                            opts = dict(opts, types_ns=ns)
+                        el, exp = gen(cname, ns, size, opts)
+                        n_el += 1
+                        args = [el] + ([ns[0]] if n_params > 1 else [])
+                        try:
+                            got = it.call_function(f, args, {})
+                        except Raised as exc:
+                            findings.setdefault((cname, '*', 'fields'), f'{f.name} refuses a well-formed {CLASS_TAG[cname]} element with {exc.name.split(".")[-1]} '
+                                                f'({exc.where[:80]}): the declaration is lost')
+                            continue
+                        out: list = []
+                        match(exp, got, '', out)
+                        for where, rule, text in out:
+                            fld = where.split('.')[0].split('[')[0] or '*'
+                            findings.setdefault((cname, fld, rule), f'{cname}.{where} {text}' if where else f'{f.name}: {text}')
+    except Undecided as exc:
+        ctx.run.stats['C05.fields_interpretation_undecided'] = str(exc)[:200]
+        return None
+    results = []
+    for cname in sorted(parsers):
+        for fld in SCHEMA[cname]:
+            kind = FIELD_KIND[cname].get(fld)
+            listy = isinstance(kind, list) or kind in ('raw', 'strlist', 'types')
+            bad = findings.get((cname, fld, 'fields')) or findings.get((cname, '*', 'fields')) or (
+                findings.get((cname, fld, 'order')) if not listy else None)
+            results.append(('C05.fields', cname, fld, not bad, bad or
+                            f'{cname}.{fld} holds what the element says under {SCHEMA[cname][fld]!r}' + (' (unchanged)' if kind in ('str', 'str?', 'int', 'raw', 'strlist') else '')))
+            if isinstance(kind, list) or kind in ('raw', 'strlist', 'types'):
+                bad_o = findings.get((cname, fld, 'order'))
+                results.append(('C05.order', cname, fld, not bad_o, bad_o or f'{cname}.{fld}: one entry per element of the list, in the order of the document (lists of 0, 2 and 3)'))
+    return results, {'elements_interpreted': n_el, 'parse_functions': len(parsers), 'parser_of': {c: f.qualname for c, f in parsers.items()}}
 
 
 def _where(ident: str, elements, path=()) -> str:
